@@ -19,15 +19,15 @@ MSeedReq(r, w) == SeedReq(r, w) /\ PrintT(ToJson(
     [src |-> St, act |-> [n |-> "SeedReq", r |-> r, wanted |-> WL(w)], out |-> UpstreamList(r, w), dst |-> St']))
 MSeedResp(r, i) == SeedResp(r, i) /\ PrintT(ToJson(
     [src |-> St, act |-> [n |-> "SeedResp", r |-> r, grant |-> T(r, i)], out |-> Viewer(r, T(r, i)), dst |-> St']))
-MRegisterTemp(r, u) == RegisterTemp(r, u) /\ PrintT(ToJson(
-    [src |-> St, act |-> [n |-> "RegisterTemp", r |-> r, u |-> u], out |-> 0, dst |-> St']))
+MRegisterTemp(r, u, n) == RegisterTemp(r, u, n) /\ PrintT(ToJson(
+    [src |-> St, act |-> [n |-> "RegisterTemp", r |-> r, u |-> u, name |-> n], out |-> 0, dst |-> St']))
 MRegisterProxy(r, n) == RegisterProxy(r, n) /\ PrintT(ToJson(
     [src |-> St, act |-> [n |-> "RegisterProxy", r |-> r, name |-> n], out |-> OutRegisterProxy(r, n), dst |-> St']))
 MResolveTemp(q) == ResolveTemp(q) /\ PrintT(ToJson(
     [src |-> St, act |-> [n |-> "Resolve", q |-> q], out |-> OutResolve(q), dst |-> St']))
 MNext == \/ \E r \in Regions : \/ \E w \in 1..7 : MSeedReq(r, w)
                                \/ \E i \in 1..9 : MSeedResp(r, i)
-                               \/ \E u \in TempUrls(r) : MRegisterTemp(r, u)
+                               \/ \E u \in TempUrls(r) : \E n \in TempNames : MRegisterTemp(r, u, n)
                                \/ \E n \in PONameSet : MRegisterProxy(r, n)
          \/ \E q \in TempReqs : MResolveTemp(q)
          \/ MObs
